@@ -251,8 +251,12 @@ class LiftGen:
                     oexp.append((arm, i, tok))
                     if rnd.random() < 0.1:
                         insts.append(Inst(g.opv["Line"], "Line", None, None, [Op("w", idr, 1), Op("w", lit, 2), Op("w", lit, 3)]))
-                t = rnd.choice(["Return", "Kill", "Unreachable", "ReturnValue", "Branch", "BranchConditional"])
-                if t == "ReturnValue":
+                # every non-switch terminator the lifter has an arm for (lift_branch and the three arms only lift_terminator has)
+                t = rnd.choice(["Return", "Kill", "Unreachable", "ReturnValue", "Branch", "BranchConditional", "TerminateInvocation",
+                                "IgnoreIntersectionKHR", "TerminateRayKHR", "EmitMeshTasksEXT"])
+                if t == "EmitMeshTasksEXT":
+                    tops = [Op("w", idr, self.distinct()) for _ in range(rnd.choice([3, 4]))]
+                elif t == "ReturnValue":
                     tops = [Op("w", idr, self.distinct())]
                 elif t == "Branch":
                     tops = [Op("w", idr, self.distinct())]
